@@ -10,6 +10,7 @@ import (
 	"net/http"
 	"net/netip"
 	"runtime/debug"
+	"slices"
 	"strings"
 	"time"
 
@@ -222,6 +223,13 @@ func doqExchange(n *simnet.Net, addr string, ip netip.Addr, msgs [][]byte) (outs
 // doqExchangeFramed is doqExchange for messages that already carry their
 // (possibly wrong) length prefix.
 func doqExchangeFramed(n *simnet.Net, addr string, ip netip.Addr, msgs [][]byte, framed bool) (outs []probeOutcome) {
+	return doqExchangeCut(n, addr, ip, msgs, framed, nil)
+}
+
+// doqExchangeCut is doqExchangeFramed with every message written to its
+// stream in pieces that end at the offsets in cuts, a pause after each, so
+// that the server reads the stream in as many steps.
+func doqExchangeCut(n *simnet.Net, addr string, ip netip.Addr, msgs [][]byte, framed bool, cuts []int) (outs []probeOutcome) {
 	if !framed {
 		var fr [][]byte
 		for _, m := range msgs {
@@ -229,7 +237,7 @@ func doqExchangeFramed(n *simnet.Net, addr string, ip netip.Addr, msgs [][]byte,
 		}
 		msgs = fr
 	}
-	for _, body := range rawDoQFramed(n, addr, ip, msgs) {
+	for _, body := range rawDoQCut(n, addr, ip, msgs, cuts) {
 		if body != nil {
 			outs = append(outs, describeFrames([][]byte{body}, "stream end"))
 		} else {
@@ -253,6 +261,11 @@ func rawDoQ(n *simnet.Net, addr string, ip netip.Addr, msgs [][]byte) (outs [][]
 
 // rawDoQFramed sends each framed message on a connection of its own.
 func rawDoQFramed(n *simnet.Net, addr string, ip netip.Addr, msgs [][]byte) (outs [][]byte) {
+	return rawDoQCut(n, addr, ip, msgs, nil)
+}
+
+// rawDoQCut is rawDoQFramed with the messages written in pieces.
+func rawDoQCut(n *simnet.Net, addr string, ip netip.Addr, msgs [][]byte, cuts []int) (outs [][]byte) {
 	pc, err := n.DialPacket(n.ClientAddr(ip))
 	if err != nil {
 		panic(err)
@@ -279,7 +292,16 @@ func rawDoQFramed(n *simnet.Net, addr string, ip netip.Addr, msgs [][]byte) (out
 
 			continue
 		}
-		_, _ = st.Write(raw)
+		from := 0
+		for _, c := range cuts {
+			if c <= from || c >= len(raw) {
+				continue
+			}
+			_, _ = st.Write(raw[from:c])
+			from = c
+			time.Sleep(20 * time.Millisecond)
+		}
+		_, _ = st.Write(raw[from:])
 		_ = st.Close()
 		_ = st.SetReadDeadline(time.Now().Add(100 * time.Second))
 		body, rerr := io.ReadAll(st)
@@ -328,6 +350,16 @@ func runC06(s *kernel.Sim, _ string) {
 		aborted[i] = t.Chance(1, 4, "doh-upload-aborted")
 	}
 	lenPrefix := t.Choose(3, "prefix-mismatch")
+	// Where the DoQ stream of the probe is cut into pieces (offsets into the
+	// framed message), if anywhere.
+	var doqCuts []int
+	for i, k := 0, t.Choose(5, "doq-pieces"); i < k; i++ {
+		doqCuts = append(doqCuts, 1+t.Choose(len(raw)+1, "doq-cut"))
+	}
+	slices.Sort(doqCuts)
+	if len(doqCuts) > 0 {
+		s.Probe("doq-stream-in-pieces")
+	}
 	s.Logf("probe %s (% x), history of %d victim queries %v", kind, raw, nHist, sizes)
 
 	vip := clientIP(20)
@@ -393,8 +425,9 @@ func runC06(s *kernel.Sim, _ string) {
 		pairs = append(pairs, pair{"doh", dohProbe(n, addrDoH, aip, raw), dohProbe(n, addrDoHB, aip, raw)})
 		// On DoQ the same framing variants: the prefix may announce more (or
 		// less) than the stream carries before it ends.
-		qa := doqExchangeFramed(n, addrDoQ, aip, [][]byte{framed}, true)
-		qb := doqExchangeFramed(n, addrDoQB, aip, [][]byte{framed}, true)
+		// The stream may reach the server in several pieces.
+		qa := doqExchangeCut(n, addrDoQ, aip, [][]byte{framed}, true, doqCuts)
+		qb := doqExchangeCut(n, addrDoQB, aip, [][]byte{framed}, true, doqCuts)
 		pairs = append(pairs, pair{"doq", qa[0], qb[0]})
 
 		for _, pr := range pairs {
